@@ -1,0 +1,41 @@
+//go:build verif
+
+package ui
+
+// Contracts for package ui, read by /verif/govc (comment-only file, compiled only with -tags verif).
+// Logging and desktop notification have no effect on the state the properties talk about; Fatal
+// panics (pterm.Fatal), FatalWithoutStacktrace exits: calling either is a "nofatal" obligation.
+
+//@ opaque func Debug
+//@   effectfree
+//@   trusted "logging has no effect on program state"
+//@ opaque func Info
+//@   effectfree
+//@   trusted "logging has no effect on program state"
+//@ opaque func Warning
+//@   effectfree
+//@   trusted "logging has no effect on program state"
+//@ opaque func Error
+//@   effectfree
+//@   trusted "logging has no effect on program state"
+//@ opaque func Success
+//@   effectfree
+//@   trusted "logging has no effect on program state"
+//@ opaque func Printfln
+//@   effectfree
+//@   trusted "logging has no effect on program state"
+//@ opaque func WarningAndNotify
+//@   effectfree
+//@   trusted "logging/notification has no effect on program state"
+//@ opaque func ErrorAndNotify
+//@   effectfree
+//@   trusted "logging/notification has no effect on program state"
+//@ opaque func NotifyError
+//@   effectfree
+//@   trusted "notification has no effect on program state"
+//@ opaque func Fatal
+//@   fatal
+//@   trusted "pterm.Fatal.Printfln panics after printing"
+//@ opaque func FatalWithoutStacktrace
+//@   fatal
+//@   trusted "prints and calls os.Exit(1)"
